@@ -134,12 +134,14 @@ package callbacks
 //@   loop "range db.Statement.Schema.QueryClauses" exit-do clausesApplied = 1
 
 //@ func Update$1
-//@   tags C08
+//@   tags C08 C05
+//@   ensures driver-error-recorded: old(drvErrPending) == 0 ==> drvErrPending == 0 [C05]
 //@   loop "range db.Statement.Schema.UpdateClauses" invariant one-call-per-clause: addCalls == old(addCalls) + iter
 //@   loop "range db.Statement.Schema.UpdateClauses" exit-do clausesApplied = 1
 
 //@ func Delete$1
-//@   tags C08
+//@   tags C08 C05
+//@   ensures driver-error-recorded: old(drvErrPending) == 0 ==> drvErrPending == 0 [C05]
 //@   loop "range db.Statement.Schema.DeleteClauses" invariant one-call-per-clause: addCalls == old(addCalls) + iter
 //@   loop "range db.Statement.Schema.DeleteClauses" exit-do clausesApplied = 1
 
@@ -267,7 +269,8 @@ package callbacks
 //@   do idGoingDown = idGoingDown - pkField.AutoIncrementIncrement
 //@   do idGoingUp = idGoingUp + pkField.AutoIncrementIncrement
 //@ func Create$1
-//@   tags C03
+//@   tags C03 C05
+//@   ensures driver-error-recorded: old(drvErrPending) == 0 ==> drvErrPending == 0 [C05]
 //@   loop "i := db.Statement.ReflectValue.Len() - 1; i >= 0; i--" entry-do idGoingDown = insertID
 //@   loop "i := db.Statement.ReflectValue.Len() - 1; i >= 0; i--" invariant one-step-down-per-key-given: insertID == idGoingDown
 //@   loop "i := 0; i < db.Statement.ReflectValue.Len(); i++" entry-do idGoingUp = insertID
@@ -278,3 +281,25 @@ package callbacks
 //@   min-sites 3
 //@   assert key-given-is-the-running-id: is(arg2, int64) && arg2.(int64) == insertID [C03]
 //@   assert only-to-records-without-a-key: isZero [C03]
+
+//@ # ---------- C05: a failure of the statement's driver call is recorded on the operation ----------
+//@ # "Reports failure": whatever error ExecContext / QueryContext returns for the main statement is handed to AddError
+//@ # (which keeps it: C05 AddError contract) before the executor returns; the implicit transaction is then rolled back
+//@ # (CommitOrRollbackTransaction contract) instead of committed.
+//@ ghost drvErrPending drvErrTag drvErrBox
+//@ event invoke ConnPool.ExecContext
+//@   in callbacks.Create$1 callbacks.Update$1 callbacks.Delete$1 callbacks.Query callbacks.RawExec
+//@   do drvErrPending = ite(tagof(result1) != 0, 1, drvErrPending)
+//@   do drvErrTag = tagof(result1)
+//@   do drvErrBox = boxof(result1)
+//@ event invoke ConnPool.QueryContext
+//@   in callbacks.Create$1 callbacks.Update$1 callbacks.Delete$1 callbacks.Query callbacks.RawExec
+//@   do drvErrPending = ite(tagof(result1) != 0, 1, drvErrPending)
+//@   do drvErrTag = tagof(result1)
+//@   do drvErrBox = boxof(result1)
+//@ event call (*DB).AddError
+//@   in callbacks.Create$1 callbacks.Update$1 callbacks.Delete$1 callbacks.Query callbacks.RawExec
+//@   do drvErrPending = ite(tagof(arg1) == drvErrTag && boxof(arg1) == drvErrBox, 0, drvErrPending)
+//@ func Query RawExec
+//@   tags C05
+//@   ensures driver-error-recorded: old(drvErrPending) == 0 ==> drvErrPending == 0 [C05]
